@@ -399,7 +399,11 @@ def examine(ctx, batch, case, want, rng, max_all=10):
     h = impl_hamiltonian(enc)
     terms = diag = None
     if h[0] == "err":
-        batch.add(lit_ham(inst, L, P, h[1], {}, 0, []), case)
+        if h[1] == "OverflowError":
+            # the float range is outside the exact-rational model (named in the trusted base): the oracle reports it, the model is not compared
+            ctx.tally("float-overflow:model-comparison-skipped")
+        else:
+            batch.add(lit_ham(inst, L, P, h[1], {}, 0, []), case)
         if n >= 1:
             ctx.violation("oracle", f"hamiltonian-raises-{h[1]}", f"{n} qubits are needed but get_problem_hamiltonian raised {h[1]}: {h[2]}", case)
     else:
@@ -441,7 +445,7 @@ def examine(ctx, batch, case, want, rng, max_all=10):
     if complete and len(decoded) == len(strings):
         batch.add(lit_decode_all(inst, L, [decoded[b][0] for b in strings]), case)
     else:
-        for b in strings[:64]:
+        for b in strings[:64 if n <= 16 else 6]:
             if b in decoded:
                 batch.add(lit_decode(inst, L, b, ("ok", decoded[b][0])), dict(case, bitstring=b))
     # wrong lengths are rejected (model: ValueError)
@@ -595,3 +599,101 @@ def report_mismatches(ctx, name, batch, chunk=12):
         ctx.violation("correspondence", f"model-vs-impl-{kind}", f"the Coq model of the encoder and the implementation answer differently ({kind})", batch.cases[i], detail=detail)
     ctx.traces = len(batch.lits)
     return bad
+
+
+# ----------------------------------------------------------------------------- larger circuits: scan of the lowest-energy states
+def gen_contended_case(rng, share=None, min_q=11, max_q=16):
+    """Instances whose variables have several qubits and many pair terms per start time: 2-4 single-operation jobs on one
+    machine (plus sometimes a second operation elsewhere) with slack 2..5.  These are the states where the negative
+    cross terms of malformed domain walls are largest."""
+    while True:
+        n_j = rng.choice([2, 3, 3, 4])
+        two = rng.random() < 0.3
+        jobs = []
+        for j in range(n_j):
+            ops = [{"name": "o0", "job": f"j{j}", "machine": "m0", "dur": rng.choice([1, 1, 2, 3])}]
+            if two and rng.random() < 0.5:
+                ops.append({"name": "o1", "job": f"j{j}", "machine": "m1", "dur": rng.choice([1, 2])})
+                if rng.random() < 0.5:
+                    ops.reverse()
+                    for x, o in enumerate(ops):
+                        o["name"] = f"o{x}"
+            jobs.append({"name": f"j{j}", "ops": ops})
+        inst = {"name": "inst", "machines": ["m0", "m1"], "jobs": jobs}
+        L = longest(inst) + rng.randint(2, 5)
+        if min_q <= expected_qubits(inst, L) <= max_q:
+            P, kind = gen_penalties(rng, share=share)
+            return {"inst": inst, "L": L, "P": P, "shape": "contended", "penalties": kind, "scan": True}
+
+
+def examine_low_energy(ctx, batch, case, want, rng, K=250):
+    """For circuits too large to decode every bitstring: evaluate the implementation's diagonal on ALL 2^n basis states
+    (direct Z-string evaluation, n <= 18), decode only the K lowest-energy states through the implementation and check the
+    clauses on them (a violation of 'undecodable >= Pe' or of the ground-state clause is a low-energy state)."""
+    import numpy as np
+
+    inst, L, P = case["inst"], case["L"], case["P"]
+    summ = {"n": None, "states": 0}
+    try:
+        enc = impl_encoder(inst, L, P)
+        n = int(enc.n_qubits)
+        H = enc.get_problem_hamiltonian()
+    except Exception as e:  # noqa
+        ctx.violation("oracle", f"hamiltonian-raises-{type(e).__name__}", f"encoder raised {type(e).__name__}: {e}", case)
+        return summ
+    summ["n"] = n
+    terms, problems = ham_terms(H)
+    if problems:
+        ctx.violation("oracle", "not-diagonal", f"Hamiltonian is not a real combination of I/Z strings: {problems}", case)
+    scale = max(abs(c) for c in terms.values())
+    try:
+        batch.add(lit_ham(inst, L, P, "", terms, scale * 1e-9, impl_counts(enc, inst)), case)
+    except Exception:
+        pass
+    diag = diag_of_terms(terms, n)
+    order = np.argsort(diag, kind="stable")[:K]
+    scale_e = sum(abs(c) for c in terms.values())
+    eps = Fraction(scale_e) * Fraction(1, 10 ** 9)
+    delta = scale_e * 1e-12
+    W, Pp, Po, Pe, share = (Fraction(P[k]) for k in ("opt", "prec", "overlap", "enc", "share"))
+    samples = []
+    first = True
+    for k in order:
+        b = format(int(k), f"0{n}b")
+        try:
+            flat, valid, mk = impl_decode(enc, inst, b)
+        except Exception as e:  # noqa
+            ctx.violation("oracle", f"decode-raises-{type(e).__name__}", f"translate_result_bitstring({b!r}) raised {type(e).__name__}: {e}", dict(case, bitstring=b))
+            continue
+        summ["states"] += 1
+        E = Fraction(float(diag[k]))
+        if len(samples) < 4:
+            samples.append(b)
+            batch.add(lit_decode(inst, L, b, ("ok", flat)), dict(case, bitstring=b))
+        if -1 in flat:
+            ctx.tally("scan:undecodable")
+            if "C01" in want and in_regime(P) and E < Pe - eps:
+                ctx.violation("oracle", "undecodable-below-encoding-penalty", f"{b!r} has an undecodable variable (decoding {flat}) but energy {float(E)} < encoding penalty {float(Pe)}", dict(case, bitstring=b))
+        else:
+            npr, nov = count_violations(inst, flat)
+            opt = E - (Pp * npr + Po * nov)
+            ctx.tally("scan:feasible" if (npr, nov) == (0, 0) else "scan:infeasible-decoded")
+            if "C01" in want and in_regime(P) and not (-eps <= opt <= W + eps):
+                ctx.violation("oracle", "decoded-penalties" if (npr, nov) != (0, 0) else "feasible-out-of-range", f"{b!r} decodes to {flat} with {npr} precedence and {nov} overlap violations; energy {float(E)} minus penalties = {float(opt)} is outside [0, {float(W)}]", dict(case, bitstring=b))
+        if first and "C02" in want and in_regime(P) and share == 0:
+            first = False
+            feas = feasible_schedules(inst, L, cap=300000)
+            if feas:
+                best = min(makespan_of(inst, st) for st in feas)
+                ties = [int(j) for j in order if float(diag[j]) - float(diag[k]) <= delta]
+                for j in ties:
+                    bj = format(j, f"0{n}b")
+                    fl, va, mkj = impl_decode(enc, inst, bj)
+                    if -1 in fl or count_violations(inst, fl) != (0, 0) or makespan_of(inst, fl) != best:
+                        ctx.violation("oracle", "ground-state", f"minimum-energy state {bj!r} decodes to {fl} (valid={va}, makespan={mkj}); the optimum of the instance within limit {L} is {best}", dict(case, bitstring=bj))
+                ctx.tally("ground-state:checked")
+            else:
+                ctx.tally("ground-state:skipped-too-many-assignments" if feas is None else "ground-state:no-feasible-schedule-within-limit")
+    if samples and n <= 16:
+        batch.add(lit_energy(inst, L, P, [(b, float(diag[int(b, 2)])) for b in samples[:3]], scale * 1e-9 * max(1, len(terms))), dict(case, bitstrings=samples[:3]))
+    return summ
